@@ -571,14 +571,20 @@ class G:
         ("21d8d82", "from t\nselect {a, g}\ngroup {a, g} (take 1)\njoin y = (from u | select {a, g}) (t.a == y.a && t.g == y.g)\nselect {t.a, t.g, k = y.g}"),
         ("8204886", 'from_text """\na,b\n"""\nderive {c = a}'),
         ("287b286", "from [{a = 1 + 1}]"),
+        ("d92afac", "module m {\n  let x = (from t | select {a})\n  let y = (from x | take 2)\n}\nfrom m.y"),
+        ("8d54bf7", "from t\nsort b\naggregate {s = sum a}\nderive {r = row_number this}"),
+        ("8d54bf7", "from t\nsort b\naggregate {s = sum a}\ntake 2..\nfilter s > 1"),
+        ("456bdcd", "from t\nsort id\nselect {a, b}\ntake 2\ngroup {a} (aggregate {n = count b})"),
+        ("7911778", "from t\nselect {a + 1, b + 1}\njoin u (true)\ntake 3"),
     ]
 
-    def f_repaired(self):
-        c, src = self.pick(self.REPAIRED)
-        return src, {"repaired", "fix:" + c}
+    @classmethod
+    def repaired_cases(cls):
+        """every program of REPAIRED, as directed cases of every run"""
+        return [{"src": src, "fam": "repaired", "tags": ["fix:" + c, "repaired"]} for c, src in cls.REPAIRED]
 
-    FAMILIES = ["core", "core_nosel", "window", "setops", "loop", "literal", "cast_std", "sstring", "join", "let", "take", "empty", "sort_dropped", "quoted", "distinct", "sort_setop", "repaired"]
-    WEIGHTS = [5, 2, 3, 4, 1.5, 1.5, 3, 1.5, 3, 1.5, 3, 1, 1.5, 1.2, 1.2, 1.5, 1]
+    FAMILIES = ["core", "core_nosel", "window", "setops", "loop", "literal", "cast_std", "sstring", "join", "let", "take", "empty", "sort_dropped", "quoted", "distinct", "sort_setop"]
+    WEIGHTS = [5, 2, 3, 4, 1.5, 1.5, 3, 1.5, 3, 1.5, 3, 1, 1.5, 1.2, 1.2, 1.5]
 
     def case(self, fam=None):
         fam = fam or self.r.choices(self.FAMILIES, weights=self.WEIGHTS)[0]
